@@ -196,6 +196,15 @@ def run(chk):
     items += [{"builder": "harness.corpus.realise_multirule", "mr": {"cell": cl, "variant": 0, "onepoint": True}, "seed": chk.seed * 7 + 50 + k,
                "scalar": "float64", "ninputs": 1, "geom": "affine", "label": f"multirule/{cl}/onepoint"}
               for k, cl in enumerate(("interval", "triangle", "quadrilateral", "tetrahedron"))]
+    # integrals with and without an explicit degree on one subdomain
+    for kk, (cl, var) in enumerate([(cl, var) for cl in ("interval", "triangle", "quadrilateral", "tetrahedron") for var in range(3 if quick else 6)]):
+        items.append({"builder": "harness.corpus.realise_mixedmeta", "mm": {"cell": cl, "variant": var}, "seed": chk.seed * 13 + kk,
+                      "scalar": "float64", "ninputs": 1, "geom": "affine", "label": f"mixedmeta/{cl}/v{var}"})
+    # the vertex scheme on facets (weights are those of the facet, not of the cell)
+    fcs = s5.enumerate_formspace(chk, facets=True)
+    for i, c in enumerate(s5.sample_cases([c for c in fcs if c["rule"] == "vertex"], 5 if quick else 40, chk.seed + 8, max_cost=30)):
+        items.append({"case": c, "seed": chk.seed * 100003 + 700 + i, "scalar": "float64", "ninputs": 1, "builder": "harness.corpus.realise_facet",
+                      "max_entities": 2, "npairs": 1, "nperm": 1})
     # requested degree honoured when it is *below* the integrand's degree (incl. degree 0)
     k = 0
     for cl in ("interval", "triangle", "quadrilateral", "tetrahedron", "hexahedron"):
